@@ -7,7 +7,12 @@ acceptance band, a cell rounded to a few significant digits), float / decimal / 
 tuple / list / ndarray / scalar arguments, p1,p2 or region= (custom dimension names), then a history of
 in-place or copying translate / scale / rotate90 calls.  The oracle lattice is always
 pmin + (i+1/2)*(pmax-pmin)/n computed here from the region corners and the expected n; nothing a mesh
-may remember about its construction is allowed to show in any observer."""
+may remember about its construction is allowed to show in any observer.
+
+Kind "stateful" interleaves observations and changes: observe -> change in place (by whoever can reach the lattice: the mesh,
+a field on it, the Region object it holds or was built from, another mesh / field sharing that Region; or the caller
+overwriting arrays the observers handed out; or a copy being changed) -> observe again, after every step.  Nothing derived
+during an earlier observation may survive a change of the lattice, and nothing may leak between a mesh and its copies."""
 import itertools
 import numpy as np
 import discretisedfield as df
@@ -26,18 +31,28 @@ CLAUSES = {
     "C01.reject_outside": "points / indices outside the region are rejected (ValueError / IndexError)",
     "C01.cell_request": "a mesh requested by cell size exists when edges are a whole number of cells (n = edges/cell; also for a cell inside the 0.1%-of-the-smallest-cell acceptance band) and is rejected when the remainder is clearly inside (0.3% of the smallest cell .. 95% of a cell)",
     "C01.tiling": "the mesh's own observers tile the region exactly once: n*cell == edges, first lower face == pmin, last upper face == pmax, neighbouring centres are one cell apart, vertices run from pmin to pmax in steps of cell and their midpoints are the centres (to rounding, 8 ulp of the coordinate scale)",
+    "C01.reobserve": "observe (cell, cells, vertices, coordinate_field, index2point, iteration, len, point2index) -> change in place (the mesh; a field on it by Field.rotate90; the Region object it holds / was built from, directly or through another mesh / field sharing it) or let the caller overwrite the arrays handed out, or copy (copying form, deepcopy) and change the copy -> observe again: after every step every description describes the one current lattice (region as transformed, divided into the current n), copies are independent",
     "C01.history": "after in-place or copying translate / scale / rotate90 (of the mesh, or in place of its region) n and the region are the transformed ones (corners to 64 ulp of the coordinate scale) and every other clause holds on the result; arrays passed to the constructor are not aliased",
 }
 RULE = ("seeded random regions (scale 10^U(-12,6), non-representable offsets, either corner order) x cell counts; "
         "every index of every mesh; probe points at centres, on all faces, +-1ulp and +-(1e-9,1e-6,1e-3) cell around faces, at both "
         "corners, outside by > tolerance; the same on meshes reached through construction routes (by n / by exact, in-band or "
         "digit-rounded cell size; float, decimal, integer corners; tuple/list/ndarray/scalar/region= arguments; custom dims; bc) "
-        "followed by 0-2 in-place or copying translate / scale / rotate90 calls (default or arbitrary reference point; on the mesh or in place on its region); non-trivial = more than one cell in total; distinct by (kind, params)")
+        "followed by 0-2 in-place or copying translate / scale / rotate90 calls (default or arbitrary reference point; on the mesh or in place on its region); "
+        "stateful: a mesh of any route (<= 6 cells per axis) is observed (all observers, or 1-3 of them in a seeded order), then 1-4 steps, each "
+        "(who changes the lattice: mesh in place | mesh.region in place | the Region given to the constructor | a sibling mesh on the same Region | "
+        "Field.rotate90 in place on the mesh / on the sibling | deepcopy changed in place | copying form, copy then moved in place | caller overwrites "
+        "the arrays handed out) x (translate | scale | rotate90 with k=1..3, default or arbitrary reference point), with every observer re-checked against the "
+        "independent lattice after every step, point probes and the centres of the first lattice located on the final one; "
+        "non-trivial = more than one cell in total; distinct by (kind, params)")
 ASSUMPTIONS = ["bounded: meshes of at most 24 cells per axis, 4 dimensions, seeded sample of geometry",
                "acceptance band of a requested cell size taken from the anchor: |n*cell - edge| <= 1e-3*min(cell) (cases use <= 0.8 of it); "
                "requests within (1, 3) times the band are not exercised",
                "transformed meshes: the lattice oracle is anchored at the region corners the mesh reports (checked against the "
-               "independently transformed corners to 64 ulp), n from the independent oracle"]
+               "independently transformed corners to 64 ulp), n from the independent oracle",
+               "stateful: a quarter turn of the Region object alone (directly or through a sibling mesh / field) leaves the mesh's n as it was - the "
+               "lattice is the turned region divided into the unchanged n; mesh.n and region.pmin / pmax (the mesh's state itself) are not overwritten "
+               "by the scribble step, only derived arrays; fields are scalar or have one component per direction (default component names / mapping); at most 4 steps"]
 
 FAMILIES = ("cell_exact", "cell_band", "cell_digits", "int_n", "int_cell", "int_band", "region_n", "region_band", "dec_n")
 
@@ -167,6 +182,85 @@ def _route_case(rng, family, ndim, nmax):
     return {"p1": p1, "p2": p2, "n": n, "route": route}
 
 
+# --- observe -> change in place -> observe again
+# who performs the in-place change (`via`):
+#   mesh          mesh.translate / scale / rotate90(inplace=True)
+#   region        the Region object the mesh reports (mesh.region), changed in place
+#   given         the Region object that was handed to the constructor (region= routes), changed in place
+#   sibling       another Mesh built on the same Region object, changed in place (moves the shared region)
+#   field         Field.rotate90(inplace=True) of a field living on the mesh
+#   sibling_field Field.rotate90(inplace=True) of a field living on the sibling mesh
+#   deepcopy      copy.deepcopy(mesh), the copy changed in place: the copy is on the new lattice, the original on the old one
+#   copy          the copying form of the operation, then the copy is moved in place: same expectations
+#   scribble      no geometric change: the arrays handed out by the previous observation are overwritten by the caller
+VIAS = ("mesh", "region", "given", "sibling", "field", "sibling_field", "deepcopy", "copy", "scribble")
+OBSERVER_NAMES = ("cell", "cells", "vertices", "coordinate_field", "index2point", "iteration", "len", "point2index")
+
+
+def _one_op(rng, name, ndim, p1, s, integer):
+    """one transformation [name, True, args...] (same layout as _ops)"""
+    ref = None
+    if rng.uniform() < 0.5:
+        ref = [int(x) for x in rng.integers(-20, 21, size=ndim)] if integer and rng.uniform() < 0.5 else \
+            (np.array(p1, float) + rng.uniform(-1, 2, size=ndim) * s).tolist()
+    if name == "translate":
+        v = [int(x) for x in rng.integers(-9, 10, size=ndim)] if integer and rng.uniform() < 0.5 else (rng.uniform(-2, 2, size=ndim) * s).tolist()
+        return [name, True, v]
+    if name == "scale":
+        f = float(rng.uniform(0.3, 3)) if rng.uniform() < 0.4 else rng.uniform(0.3, 3, size=ndim).tolist()
+        return [name, True, f, ref]
+    a1, a2 = (int(x) for x in rng.choice(ndim, size=2, replace=False))
+    return [name, True, a1, a2, int(rng.integers(1, 4)), ref]
+
+
+def _valid_ops(via, ndim):
+    if via == "scribble":
+        return (None,)
+    if via in ("field", "sibling_field"):
+        return ("rotate90",) if ndim >= 2 else ()
+    return ("translate", "scale") + (("rotate90",) if ndim >= 2 else ())
+
+
+def _stateful_case(rng, ndim, via, opname):
+    """a mesh (any construction route), what is observed first, and 1-3 steps each followed by a full observation"""
+    fams = [f for f in FAMILIES if f.startswith("region")] if via == "given" or rng.uniform() < 0.3 else list(FAMILIES)
+    pr = None
+    for _ in range(8):
+        pr = _route_case(rng, fams[int(rng.integers(len(fams)))], ndim, 6)
+        if pr is not None:
+            break
+    if pr is None:
+        return None
+    pr["route"].pop("ops", None)
+    integer = isinstance(pr["p1"][0], int)
+    s = float(np.max(np.abs(np.array(pr["p2"], float) - np.array(pr["p1"], float))))
+
+    def step(via, opname):
+        st = {"via": via}
+        if opname is not None:
+            st["op"] = _one_op(rng, opname, ndim, pr["p1"], s, integer)
+        if via in ("sibling", "sibling_field"):
+            st["n2"] = rng.integers(1, 5, size=ndim).tolist()
+        if via in ("field", "sibling_field"):
+            st["nvdim"] = ndim if rng.uniform() < 0.5 else 1
+        return st
+
+    steps = [step(via, opname)]
+    for _ in range(int(rng.integers(0, 3))):
+        v = VIAS[int(rng.integers(len(VIAS)))]
+        if v == "given" and not pr["route"].get("region"):
+            v = "region"
+        names = _valid_ops(v, ndim)
+        if names:
+            steps.append(step(v, names[int(rng.integers(len(names)))]))
+    # what has been looked at before the first change: everything (checked), or only a few observers in some order (unchecked)
+    first = "all"
+    if rng.uniform() < 0.35:
+        k = int(rng.integers(1, 4))
+        first = [OBSERVER_NAMES[int(i)] for i in rng.choice(len(OBSERVER_NAMES), size=k, replace=False)]
+    return dict(pr, steps=steps, first=first, seed=int(rng.integers(1 << 30)))
+
+
 def cases(ctx):
     rng = ctx.rng
     nmax = 12 if ctx.tier == "quick" else 24
@@ -193,6 +287,21 @@ def cases(ctx):
                 continue
             yield "lattice", pr
             yield "probe", dict(pr, seed=int(rng.integers(1 << 30)))
+    # observe -> change in place -> observe again: every way of changing the lattice x every operation, in every dimension
+    sreps = 2 if ctx.tier == "quick" else 20
+    for ndim in (1, 2, 3, 4):
+        for via in VIAS * sreps:
+            for opname in _valid_ops(via, ndim):
+                pr = _stateful_case(rng, ndim, via, opname)
+                if pr is not None:
+                    yield "stateful", pr
+    yield "stateful", {"p1": [0, 0, 0], "p2": [10, 6, 4], "n": [5, 2, 2], "first": "all", "seed": 3, "steps": [
+        {"via": "mesh", "op": ["rotate90", True, 0, 1, 1, None]}, {"via": "scribble"},
+        {"via": "field", "nvdim": 3, "op": ["rotate90", True, 1, 2, 3, [0, 0, 0]]}, {"via": "mesh", "op": ["translate", True, [1, 2, 3]]}]}
+    yield "stateful", {"p1": [0.0, 0.0], "p2": [8.0, 3.0], "n": [4, 3], "route": {"region": True, "dims": ["x", "y"]}, "first": ["cells"],
+                       "seed": 4, "steps": [{"via": "given", "op": ["translate", True, [100.0, -50.0]]},
+                                            {"via": "sibling", "n2": [2, 5], "op": ["rotate90", True, 0, 1, 1, None]},
+                                            {"via": "region", "op": ["scale", True, [2.0, 0.5], None]}]}
     # fixed corner cases
     yield "lattice", {"p1": [0.0], "p2": [1.0], "n": [1]}
     yield "lattice", {"p1": [-1e-9, 5e-9, 0.0], "p2": [1e-9, -5e-9, 3e-9], "n": [4, 5, 3]}
@@ -226,8 +335,9 @@ def _arg(style, values):
     return tuple(values)
 
 
-def build(pr, ctx):
-    """-> (mesh, n_expected) or None when the constructor refused a legitimate request (already reported)."""
+def _build(pr, ctx):
+    """-> (mesh, oracle state {min, max, n, mag}, the Region object given to the constructor or None), or None when the
+    constructor refused a legitimate request (already reported)."""
     rt = pr.get("route") or {}
     p1, p2, n = pr["p1"], pr["p2"], [int(k) for k in pr["n"]]
     ndim = len(n)
@@ -270,181 +380,234 @@ def build(pr, ctx):
         ctx.require(all(np.array_equal(x, y) for x, y in zip(before, after)), "C01.history",
                     "the mesh changes when the arrays passed to its constructor are modified", sig="constructor-argument-aliased")
     ops = rt.get("ops") or []
-    E_min, E_max, E_n = pmin.astype(float), pmax.astype(float), list(n)
-    mag = np.maximum(np.abs(E_min), np.abs(E_max))          # largest operand seen: the scale of the accumulated rounding
+    st = {"min": pmin.astype(float), "max": pmax.astype(float), "n": list(n)}
+    st["mag"] = np.maximum(np.abs(st["min"]), np.abs(st["max"]))   # largest operand seen: the scale of the accumulated rounding
     for op in ops:
         name, inplace = op[0], bool(op[1])
-        dims = mesh.region.dims
-        if name in ("translate", "rtranslate"):
-            v = op[2]
-            res = mesh.translate(tuple(v), inplace=inplace) if name == "translate" else (mesh.region.translate(tuple(v), inplace=True), mesh)[1]
-            E_min, E_max = E_min + np.array(v, float), E_max + np.array(v, float)
-            mag = np.maximum(mag, np.abs(np.array(v, float)))
-        elif name in ("scale", "rscale"):
-            f, ref = op[2], (op[3] if len(op) > 3 else None)
-            fa = f if isinstance(f, (int, float)) else tuple(f)
-            kw = {} if ref is None else {"reference_point": tuple(ref)}
-            res = mesh.scale(fa, inplace=inplace, **kw) if name == "scale" else (mesh.region.scale(fa, inplace=True, **kw), mesh)[1]
-            c = (E_min + E_max) / 2 if ref is None else np.array(ref, float)
-            fv = np.array(f, float) * np.ones(ndim)
-            mag = np.maximum(mag, np.maximum(np.abs(c), np.maximum(np.abs(c - E_min), np.abs(E_max - c)) * np.maximum(fv, 1)))
-            E_min, E_max = c - (c - E_min) * fv, c + (E_max - c) * fv
-        elif name == "rotate90":
-            i, j, k = int(op[2]), int(op[3]), int(op[4])
-            ref = op[5] if len(op) > 5 else None
-            kw = {} if ref is None else {"reference_point": tuple(ref)}
-            res = mesh.rotate90(dims[i], dims[j], k=k, inplace=inplace, **kw)
-            c = (E_min + E_max) / 2 if ref is None else np.array(ref, float)
-            mag = np.maximum(mag, np.abs(c))
-            mag[i] = mag[j] = max(mag[i], mag[j], abs(c[i] - E_min[i]), abs(c[i] - E_max[i]), abs(c[j] - E_min[j]), abs(c[j] - E_max[j]))
-            corners = []
-            for q in (E_min, E_max):       # k exact quarter turns of a corner about c in the (i, j) plane: (dx, dy) -> (-dy, dx)
-                q = q.copy()
-                dx, dy = q[i] - c[i], q[j] - c[j]
-                for _ in range(k % 4):
-                    dx, dy = -dy, dx
-                q[i], q[j] = c[i] + dx, c[j] + dy
-                corners.append(q)
-            E_min, E_max = np.minimum(*corners), np.maximum(*corners)
-            if k % 2 == 1:
-                E_n[i], E_n[j] = E_n[j], E_n[i]
-        else:
-            raise ValueError("unknown op %r" % (name,))
-        mag = np.maximum(mag, np.maximum(np.abs(E_min), np.abs(E_max)))
+        res = _lib_call(mesh.region if name in ("rtranslate", "rscale") else mesh, op, inplace)
+        if name in ("rtranslate", "rscale"):
+            res = mesh
+        st = _oracle_step(op, st)
         if inplace:
             ctx.require(res is mesh, "C01.history", "in-place %s does not return the mesh itself" % name)
         mesh = res
     if ops:
-        ctx.require(np.array_equal(mesh.n, E_n), "C01.history", "n after the transformations", got=mesh.n, want=E_n, ops=ops)
-        ctx.require(ulp_close(mesh.region.pmin, E_min, 64, mag) and ulp_close(mesh.region.pmax, E_max, 64, mag), "C01.history",
-                    "region corners after the transformations", got=[mesh.region.pmin, mesh.region.pmax], want=[E_min, E_max], ops=ops)
-    return mesh, E_n
+        _corners_and_n(mesh, st, ctx, ops=ops)
+    return mesh, st, kw.get("region")
+
+
+def build(pr, ctx):
+    """-> (mesh, n_expected) or None when the constructor refused a legitimate request (already reported)."""
+    built = _build(pr, ctx)
+    return None if built is None else (built[0], built[1]["n"])
+
+
+def _corners_and_n(mesh, st, ctx, **detail):
+    ok = ctx.require(np.array_equal(mesh.n, st["n"]), "C01.history", "n after the transformations", got=mesh.n, want=st["n"], **detail)
+    ok &= ctx.require(ulp_close(mesh.region.pmin, st["min"], 64, st["mag"]) and ulp_close(mesh.region.pmax, st["max"], 64, st["mag"]),
+                      "C01.history", "region corners after the transformations", got=[mesh.region.pmin, mesh.region.pmax],
+                      want=[st["min"], st["max"]], **detail)
+    return ok
+
+
+_METHOD = {"translate": "translate", "rtranslate": "translate", "scale": "scale", "rscale": "scale", "rotate90": "rotate90"}
+
+
+def _lib_call(target, op, inplace):
+    """the REAL transformation `op` = [name, _, args...] on a Mesh or a Region (same signatures)"""
+    name = _METHOD[op[0]]
+    if name == "translate":
+        return target.translate(tuple(op[2]), inplace=inplace)
+    if name == "scale":
+        f, ref = op[2], (op[3] if len(op) > 3 else None)
+        kw = {} if ref is None else {"reference_point": tuple(ref)}
+        return target.scale(f if isinstance(f, (int, float)) else tuple(f), inplace=inplace, **kw)
+    dims = target.dims if isinstance(target, df.Region) else (target.mesh if isinstance(target, df.Field) else target).region.dims
+    ref = op[5] if len(op) > 5 else None
+    kw = {} if ref is None else {"reference_point": tuple(ref)}
+    return target.rotate90(dims[int(op[2])], dims[int(op[3])], k=int(op[4]), inplace=inplace, **kw)
+
+
+def _oracle_step(op, st, swap_n=True):
+    """the independent oracle of one transformation: corners, n and the scale of the accumulated rounding after `op`.
+    swap_n: a quarter turn of the mesh exchanges its cell counts; a quarter turn of its Region object alone does not."""
+    name = _METHOD[op[0]]
+    E_min, E_max, E_n, mag = st["min"], st["max"], list(st["n"]), st["mag"].copy()
+    ndim = len(E_n)
+    if name == "translate":
+        v = np.array(op[2], float)
+        E_min, E_max = E_min + v, E_max + v
+        mag = np.maximum(mag, np.abs(v))
+    elif name == "scale":
+        f, ref = op[2], (op[3] if len(op) > 3 else None)
+        c = (E_min + E_max) / 2 if ref is None else np.array(ref, float)
+        fv = np.array(f, float) * np.ones(ndim)
+        mag = np.maximum(mag, np.maximum(np.abs(c), np.maximum(np.abs(c - E_min), np.abs(E_max - c)) * np.maximum(fv, 1)))
+        E_min, E_max = c - (c - E_min) * fv, c + (E_max - c) * fv
+    else:
+        i, j, k = int(op[2]), int(op[3]), int(op[4])
+        ref = op[5] if len(op) > 5 else None
+        c = (E_min + E_max) / 2 if ref is None else np.array(ref, float)
+        mag = np.maximum(mag, np.abs(c))
+        mag[i] = mag[j] = max(mag[i], mag[j], abs(c[i] - E_min[i]), abs(c[i] - E_max[i]), abs(c[j] - E_min[j]), abs(c[j] - E_max[j]))
+        corners = []
+        for q in (E_min, E_max):       # k exact quarter turns of a corner about c in the (i, j) plane: (dx, dy) -> (-dy, dx)
+            q = q.copy()
+            dx, dy = q[i] - c[i], q[j] - c[j]
+            for _ in range(k % 4):
+                dx, dy = -dy, dx
+            q[i], q[j] = c[i] + dx, c[j] + dy
+            corners.append(q)
+        E_min, E_max = np.minimum(*corners), np.maximum(*corners)
+        if k % 2 == 1 and swap_n:
+            E_n[i], E_n[j] = E_n[j], E_n[i]
+    mag = np.maximum(mag, np.maximum(np.abs(E_min), np.abs(E_max)))
+    return {"min": E_min, "max": E_max, "n": E_n, "mag": mag}
 
 
 # ------------------------------------------------------------------------------------------ clauses
 def check(kind, pr, ctx):
     if kind == "by_cell":
         return check_by_cell(pr, ctx)
+    if kind == "stateful":
+        return check_stateful(pr, ctx)
     built = build(pr, ctx)
     if built is None:
         return
     mesh, n = built
-    ndim = len(n)
-    # the lattice the property talks about: the region the mesh is on, divided into n cells per direction
-    pmin, pmax = np.asarray(mesh.region.pmin, float), np.asarray(mesh.region.pmax, float)
-    cell = (pmax - pmin) / np.array(n)
-    scale = np.maximum(np.abs(pmin), np.abs(pmax))
     if int(np.prod(n)) == 1:
         ctx.trivial()
     if kind == "lattice":
-        ctx.require(ulp_close(mesh.cell, cell, 4), "C01.cell_size", "cell != edges/n", got=mesh.cell, want=cell)
-        ctx.require(len(mesh) == int(np.prod(n)), "C01.len_order", "len(mesh) != prod(n)")
-        idxs = list(mesh.indices)
-        pts = list(mesh)
-        want = [tuple(reversed(t)) for t in itertools.product(*[range(k) for k in reversed(n)])]
-        ctx.require(idxs == want, "C01.len_order", "indices not in first-dimension-fastest order")
-        ok_c = ok_rt = ok_it = True
-        bad_c = None
-        for i, pt in zip(idxs, pts):
-            c = mesh.index2point(i)
-            if not ulp_close(c, pmin + (np.array(i) + 0.5) * cell, 8, scale):
-                ok_c, bad_c = False, bad_c or (list(i), np.asarray(c).tolist(), (pmin + (np.array(i) + 0.5) * cell).tolist())
-            ok_it &= bool(np.array_equal(np.asarray(c), np.asarray(pt)))
-            ok_rt &= mesh.point2index(c) == tuple(i)
-        ctx.require(ok_c, "C01.centre", "index2point differs from pmin+(i+1/2)*cell", index_got_want=bad_c)
-        ctx.require(ok_it and len(pts) == len(idxs), "C01.len_order", "iteration over the mesh does not yield index2point(indices[k])")
-        ctx.require(ok_rt, "C01.roundtrip", "point2index(index2point(i)) != i")
-        for j, d in enumerate(mesh.region.dims):
-            cj, vj = getattr(mesh.cells, d), getattr(mesh.vertices, d)
-            ctx.require(len(cj) == n[j] and len(vj) == n[j] + 1, "C01.cells_vertices", "wrong number of centres/vertices")
-            ctx.require(ulp_close(cj, pmin[j] + (np.arange(n[j]) + 0.5) * cell[j], 8, scale[j])
-                        and ulp_close(vj, pmin[j] + np.arange(n[j] + 1) * cell[j], 8, scale[j]), "C01.cells_vertices",
-                        "per-axis centres/vertices differ from the lattice", axis=j)
-        if int(np.prod(n)) <= 4096:
-            cf = mesh.coordinate_field()
-            okcf = cf.array.shape == (*n, ndim) and all(
-                np.array_equal(cf.array[tuple(i)], np.asarray(mesh.index2point(i))) or ulp_close(cf.array[tuple(i)], mesh.index2point(i), 4, scale)
-                for i in idxs)
-            ctx.require(okcf, "C01.coordinate_field", "coordinate_field does not hold the cell centres")
-        bad_hi = raises(IndexError, mesh.index2point, tuple(n))[0] and raises(IndexError, mesh.index2point, tuple([-1] * ndim))[0]
-        one = [0] * ndim
-        one[-1] = n[-1]
-        bad_hi &= raises(IndexError, mesh.index2point, tuple(one))[0]
-        ctx.require(bad_hi, "C01.reject_outside", "out-of-range index accepted")
-        check_tiling(mesh, n, pmin, pmax, scale, ctx)
+        check_lattice(mesh, n, ctx)
     elif kind == "probe":
-        rng = np.random.default_rng(pr["seed"])
-        tol = np.min(pmax - pmin) * mesh.region.tolerance_factor + mesh.region.tolerance_factor * scale
-        slack = 4 * np.spacing(scale) + tol
-        own_cell = np.asarray(mesh.cell, float)
-        okc = okf = okr = okown = oknear = True
-        detail = near_detail = own_detail = None
+        check_probe(mesh, n, pr["seed"], ctx, kind)
 
-        def own_box_contains(p, k):
-            # the cell as the mesh itself describes it: centre index2point(k), size mesh.cell
-            c = np.asarray(mesh.index2point(tuple(int(x) for x in k)), float)
-            return bool(np.all(p >= c - own_cell / 2 - 2 * slack) and np.all(p <= c + own_cell / 2 + 2 * slack))
 
-        probes = [pmin + rng.uniform(0, 1, ndim) * (pmax - pmin) for _ in range(40)]
-        probes += [np.array(mesh.region.pmin, float), np.array(mesh.region.pmax, float)]
-        for p in probes:
-            # random interior points and the two corners
-            k = np.array(mesh.point2index(p))
-            inr = np.all((k >= 0) & (k < n))
-            lo, hi = pmin + k * cell, pmin + (k + 1) * cell
-            if not (inr and np.all(p >= lo - slack) and np.all(p <= hi + slack)):
-                okc = False
-                detail = (p.tolist(), k.tolist())
-            elif not own_box_contains(p, k):
-                okown = False
-                own_detail = (p.tolist(), k.tolist())
-        kmin, kmax = mesh.point2index(np.array(mesh.region.pmin)), mesh.point2index(np.array(mesh.region.pmax))
-        ctx.require(kmin == tuple([0] * ndim) and kmax == tuple(k - 1 for k in n), "C01.face_lower_inclusive",
-                    "pmin / pmax do not map to the first / last cell", got=[kmin, kmax])
-        # faces: vertex j of axis a -> cell j (lower face inclusive), the neighbouring cell is accepted only when the vertex lies within rounding (8 ulp of the coordinate scale) of the face
-        for a in range(ndim):
-            verts = pmin[a] + np.arange(n[a] + 1) * cell[a]      # oracle faces
-            verts[-1] = pmax[a]
-            for j, v in enumerate(verts):
-                p = np.array(mesh.region.center, float)
-                p[a] = v
-                k = mesh.point2index(p)[a]
-                want = min(j, n[a] - 1)
-                if k != want:
-                    # rounding: accept the neighbour only if the computed quotient is within 2 ulp of the integer j
-                    qv = (v - pmin[a]) / cell[a]
-                    if not (abs(qv - j) <= 8 * np.spacing(scale[a]) / cell[a] + 8 * np.spacing(max(j, 1.0)) and abs(k - want) == 1):
-                        okf = False
-                        detail = (a, j, k)
-                # strictly inside a cell, close to its face: no tolerance and no rounding can move the point to the neighbour
-                for eps in (1e-9, 1e-6, 1e-3):
-                    d = eps * cell[a]
-                    if d <= 4 * tol[a] + 64 * np.spacing(scale[a]):
+def _frame(mesh, n):
+    """the lattice the property talks about: the region the mesh is on, divided into n cells per direction"""
+    pmin, pmax = np.asarray(mesh.region.pmin, float), np.asarray(mesh.region.pmax, float)
+    return pmin, pmax, (pmax - pmin) / np.array(n), np.maximum(np.abs(pmin), np.abs(pmax))
+
+
+def check_lattice(mesh, n, ctx):
+    """every description of the lattice the mesh offers, against pmin + (i+1/2)*(pmax-pmin)/n"""
+    ndim = len(n)
+    pmin, pmax, cell, scale = _frame(mesh, n)
+    ctx.require(ulp_close(mesh.cell, cell, 4), "C01.cell_size", "cell != edges/n", got=mesh.cell, want=cell)
+    ctx.require(len(mesh) == int(np.prod(n)), "C01.len_order", "len(mesh) != prod(n)")
+    idxs = list(mesh.indices)
+    pts = list(mesh)
+    want = [tuple(reversed(t)) for t in itertools.product(*[range(k) for k in reversed(n)])]
+    ctx.require(idxs == want, "C01.len_order", "indices not in first-dimension-fastest order")
+    ok_c = ok_rt = ok_it = True
+    bad_c = None
+    for i, pt in zip(idxs, pts):
+        c = mesh.index2point(i)
+        if not ulp_close(c, pmin + (np.array(i) + 0.5) * cell, 8, scale):
+            ok_c, bad_c = False, bad_c or (list(i), np.asarray(c).tolist(), (pmin + (np.array(i) + 0.5) * cell).tolist())
+        ok_it &= bool(np.array_equal(np.asarray(c), np.asarray(pt)))
+        ok_rt &= mesh.point2index(c) == tuple(i)
+    ctx.require(ok_c, "C01.centre", "index2point differs from pmin+(i+1/2)*cell", index_got_want=bad_c)
+    ctx.require(ok_it and len(pts) == len(idxs), "C01.len_order", "iteration over the mesh does not yield index2point(indices[k])")
+    ctx.require(ok_rt, "C01.roundtrip", "point2index(index2point(i)) != i")
+    for j, d in enumerate(mesh.region.dims):
+        cj, vj = getattr(mesh.cells, d), getattr(mesh.vertices, d)
+        oklen = ctx.require(len(cj) == n[j] and len(vj) == n[j] + 1, "C01.cells_vertices", "wrong number of centres/vertices",
+                            axis=j, got=[len(cj), len(vj)], n=n[j])
+        ctx.require(oklen and ulp_close(cj, pmin[j] + (np.arange(n[j]) + 0.5) * cell[j], 8, scale[j])
+                    and ulp_close(vj, pmin[j] + np.arange(n[j] + 1) * cell[j], 8, scale[j]), "C01.cells_vertices",
+                    "per-axis centres/vertices differ from the lattice", axis=j, cells=cj, vertices=vj,
+                    want_first_centre=pmin[j] + 0.5 * cell[j], cell=cell[j])
+    if int(np.prod(n)) <= 4096:
+        r, cf = raises(Exception, mesh.coordinate_field)       # a valid mesh always has a coordinate field
+        okcf = not r and cf.array.shape == (*n, ndim) and all(
+            np.array_equal(cf.array[tuple(i)], np.asarray(mesh.index2point(i))) or ulp_close(cf.array[tuple(i)], mesh.index2point(i), 4, scale)
+            for i in idxs)
+        ctx.require(okcf, "C01.coordinate_field", "coordinate_field does not hold the cell centres", error=repr(cf) if r else None)
+    bad_hi = raises(IndexError, mesh.index2point, tuple(n))[0] and raises(IndexError, mesh.index2point, tuple([-1] * ndim))[0]
+    one = [0] * ndim
+    one[-1] = n[-1]
+    bad_hi &= raises(IndexError, mesh.index2point, tuple(one))[0]
+    ctx.require(bad_hi, "C01.reject_outside", "out-of-range index accepted")
+    check_tiling(mesh, n, pmin, pmax, scale, ctx)
+
+
+def check_probe(mesh, n, seed, ctx, kind="probe"):
+    """point -> index at random points, at the corners, on and around every face, and outside"""
+    ndim = len(n)
+    pmin, pmax, cell, scale = _frame(mesh, n)
+    rng = np.random.default_rng(seed)
+    tol = np.min(pmax - pmin) * mesh.region.tolerance_factor + mesh.region.tolerance_factor * scale
+    slack = 4 * np.spacing(scale) + tol
+    own_cell = np.asarray(mesh.cell, float)
+    okc = okf = okr = okown = oknear = True
+    detail = near_detail = own_detail = None
+
+    def own_box_contains(p, k):
+        # the cell as the mesh itself describes it: centre index2point(k), size mesh.cell
+        c = np.asarray(mesh.index2point(tuple(int(x) for x in k)), float)
+        return bool(np.all(p >= c - own_cell / 2 - 2 * slack) and np.all(p <= c + own_cell / 2 + 2 * slack))
+
+    probes = [pmin + rng.uniform(0, 1, ndim) * (pmax - pmin) for _ in range(40)]
+    probes += [np.array(mesh.region.pmin, float), np.array(mesh.region.pmax, float)]
+    for p in probes:
+        # random interior points and the two corners
+        k = np.array(mesh.point2index(p))
+        inr = np.all((k >= 0) & (k < n))
+        lo, hi = pmin + k * cell, pmin + (k + 1) * cell
+        if not (inr and np.all(p >= lo - slack) and np.all(p <= hi + slack)):
+            okc = False
+            detail = (p.tolist(), k.tolist())
+        elif not own_box_contains(p, k):
+            okown = False
+            own_detail = (p.tolist(), k.tolist())
+    kmin, kmax = mesh.point2index(np.array(mesh.region.pmin)), mesh.point2index(np.array(mesh.region.pmax))
+    ctx.require(kmin == tuple([0] * ndim) and kmax == tuple(k - 1 for k in n), "C01.face_lower_inclusive",
+                "pmin / pmax do not map to the first / last cell", got=[kmin, kmax])
+    # faces: vertex j of axis a -> cell j (lower face inclusive), the neighbouring cell is accepted only when the vertex lies within rounding (8 ulp of the coordinate scale) of the face
+    for a in range(ndim):
+        verts = pmin[a] + np.arange(n[a] + 1) * cell[a]      # oracle faces
+        verts[-1] = pmax[a]
+        for j, v in enumerate(verts):
+            p = np.array(mesh.region.center, float)
+            p[a] = v
+            k = mesh.point2index(p)[a]
+            want = min(j, n[a] - 1)
+            if k != want:
+                # rounding: accept the neighbour only if the computed quotient is within 2 ulp of the integer j
+                qv = (v - pmin[a]) / cell[a]
+                if not (abs(qv - j) <= 8 * np.spacing(scale[a]) / cell[a] + 8 * np.spacing(max(j, 1.0)) and abs(k - want) == 1):
+                    okf = False
+                    detail = (a, j, k)
+            # strictly inside a cell, close to its face: no tolerance and no rounding can move the point to the neighbour
+            for eps in (1e-9, 1e-6, 1e-3):
+                d = eps * cell[a]
+                if d <= 4 * tol[a] + 64 * np.spacing(scale[a]):
+                    continue
+                for sgn, wantk in ((1, j), (-1, j - 1)):
+                    if not 0 <= wantk < n[a]:
                         continue
-                    for sgn, wantk in ((1, j), (-1, j - 1)):
-                        if not 0 <= wantk < n[a]:
-                            continue
-                        p[a] = v + sgn * d
-                        k = mesh.point2index(p)
-                        if k[a] != wantk:
-                            oknear = False
-                            near_detail = (a, j, sgn * eps, k[a], wantk)
-                        elif not own_box_contains(p, k):
-                            okown = False
-                            own_detail = (p.tolist(), list(k))
-        # outside by more than the tolerance
-        for a in range(ndim):
-            for side in (-1, 1):
-                p = np.array(mesh.region.center, float)
-                p[a] = (pmin[a] - 1e-3 * (pmax[a] - pmin[a]) - 10 * tol[a]) if side < 0 else (pmax[a] + 1e-3 * (pmax[a] - pmin[a]) + 10 * tol[a])
-                okr &= raises(ValueError, mesh.point2index, p)[0]
-        ctx.require(okc, "C01.containing_cell", "point maps to a cell that does not contain it", detail=detail)
-        ctx.require(oknear, "C01.containing_cell", "point strictly inside a cell (eps*cell from its face) maps to the neighbouring cell",
-                    sig=kind + ":near-face", axis_vertex_eps_got_want=near_detail)
-        ctx.require(okown, "C01.containing_cell", "the cell as described by index2point(k) +- mesh.cell/2 does not contain the point mapped to k",
-                    sig=kind + ":own-cell", point_index=own_detail)
-        ctx.require(okf, "C01.face_lower_inclusive", "vertex coordinate not mapped to the cell above it", detail=detail)
-        ctx.require(okr, "C01.reject_outside", "point outside the region accepted")
+                    p[a] = v + sgn * d
+                    k = mesh.point2index(p)
+                    if k[a] != wantk:
+                        oknear = False
+                        near_detail = (a, j, sgn * eps, k[a], wantk)
+                    elif not own_box_contains(p, k):
+                        okown = False
+                        own_detail = (p.tolist(), list(k))
+    # outside by more than the tolerance
+    for a in range(ndim):
+        for side in (-1, 1):
+            p = np.array(mesh.region.center, float)
+            p[a] = (pmin[a] - 1e-3 * (pmax[a] - pmin[a]) - 10 * tol[a]) if side < 0 else (pmax[a] + 1e-3 * (pmax[a] - pmin[a]) + 10 * tol[a])
+            okr &= raises(ValueError, mesh.point2index, p)[0]
+    ctx.require(okc, "C01.containing_cell", "point maps to a cell that does not contain it", detail=detail)
+    ctx.require(oknear, "C01.containing_cell", "point strictly inside a cell (eps*cell from its face) maps to the neighbouring cell",
+                sig=kind + ":near-face", axis_vertex_eps_got_want=near_detail)
+    ctx.require(okown, "C01.containing_cell", "the cell as described by index2point(k) +- mesh.cell/2 does not contain the point mapped to k",
+                sig=kind + ":own-cell", point_index=own_detail)
+    ctx.require(okf, "C01.face_lower_inclusive", "vertex coordinate not mapped to the cell above it", detail=detail)
+    ctx.require(okr, "C01.reject_outside", "point outside the region accepted")
 
 
 def check_tiling(mesh, n, pmin, pmax, scale, ctx):
@@ -472,6 +635,139 @@ def check_tiling(mesh, n, pmin, pmax, scale, ctx):
         ok = ok and ulp_close(vj[0], pmin[j], 2, scale[j]) and ulp_close(vj[-1], pmax[j], 2, scale[j])
         ctx.require(ok, "C01.tiling", "index2point / cells / vertices / cell disagree along an axis", axis=j,
                     index2point=line, cells=cj, vertices=vj, cell=own[j])
+
+
+# ------------------------------------------------------------------------------------------ observe, change in place, observe again
+def _grab(mesh, names):
+    """call the named observers; -> the arrays they handed out (for the caller to keep / overwrite)"""
+    got = []
+    for name in names:
+        if name == "cell":
+            got.append(mesh.cell)
+        elif name == "cells":
+            got.extend(mesh.cells)
+        elif name == "vertices":
+            got.extend(mesh.vertices)
+        elif name == "coordinate_field":
+            got.append(mesh.coordinate_field().array)
+        elif name == "index2point":
+            got.extend(mesh.index2point(i) for i in mesh.indices)
+        elif name == "iteration":
+            got.extend(mesh)
+        elif name == "len":
+            len(mesh)
+        elif name == "point2index":
+            mesh.point2index(mesh.region.center)
+            mesh.point2index(np.array(mesh.region.pmin))
+    return [a for a in got if isinstance(a, np.ndarray)]
+
+
+def _field(mesh, step):
+    nv = int(step.get("nvdim", 1))
+    return df.Field(mesh, nvdim=nv, value=2.0 if nv == 1 else tuple(float(c) for c in range(1, nv + 1)))
+
+
+def _observe(mesh, st, ctx, after, sig):
+    """all descriptions of the lattice against the oracle state; one summary clause per observation"""
+    before = len(ctx.violations)
+    _corners_and_n(mesh, st, ctx, after=after)
+    try:
+        check_lattice(mesh, st["n"], ctx)
+    except Exception as e:          # the same observers do not raise on a fresh mesh (kind "lattice")
+        ctx.require(False, "C01.reobserve", "an observer raised", sig=sig + ":raised", error=repr(e), after=after)
+    failed = sorted({v["clause"] for v in ctx.violations[before:]})
+    return ctx.require(not failed, "C01.reobserve", "descriptions observed after the step do not describe the current lattice",
+                       sig=sig, after=after, failed=failed, n=st["n"], pmin=st["min"], pmax=st["max"])
+
+
+def check_stateful(pr, ctx):
+    import copy
+    built = _build(pr, ctx)
+    if built is None:
+        return
+    mesh, st, given = built
+    ndim = len(st["n"])
+    if int(np.prod(st["n"])) == 1:
+        ctx.trivial()
+    first = pr.get("first", "all")
+    if first == "all":
+        if not _observe(mesh, st, ctx, "construction", "fresh"):
+            return
+        held = _grab(mesh, OBSERVER_NAMES)
+    else:
+        held = _grab(mesh, first)
+    old_centres = [np.asarray(mesh.index2point(i), float) for i in mesh.indices]
+    siblings = []                                 # kept alive: other meshes / fields on the same Region object
+    for k, step in enumerate(pr["steps"]):
+        via, op = step["via"], step.get("op")
+        after = "step %d: %s %s" % (k, via, op)
+        sig = "after:%s:%s" % (via, op[0] if op else "-")
+        if via == "scribble":
+            for a in held:
+                if a.flags.writeable:
+                    a[...] = a * -3 + 1
+        elif via == "mesh":
+            res = _lib_call(mesh, op, True)
+            ctx.require(res is mesh, "C01.history", "in-place %s does not return the mesh itself" % op[0])
+            st = _oracle_step(op, st)
+        elif via in ("region", "given"):
+            target = given if via == "given" and given is not None else mesh.region
+            _lib_call(target, op, True)
+            st = _oracle_step(op, st, swap_n=False)
+        elif via in ("sibling", "sibling_field"):
+            sib = df.Mesh(region=mesh.region, n=tuple(int(x) for x in step["n2"]))
+            siblings.append(sib)
+            if via == "sibling":
+                _lib_call(sib, op, True)
+            else:
+                fld = _field(sib, step)
+                siblings.append(fld)
+                _lib_call(fld, op, True)
+            st = _oracle_step(op, st, swap_n=False)
+        elif via == "field":
+            fld = _field(mesh, step)
+            siblings.append(fld)
+            res = _lib_call(fld, op, True)
+            ctx.require(res is fld and fld.mesh is mesh and fld.array.shape == (*mesh.n, fld.nvdim), "C01.history",
+                        "Field.rotate90(inplace=True): not the same field on the same mesh with one value per cell")
+            st = _oracle_step(op, st)
+        elif via in ("deepcopy", "copy"):
+            if via == "deepcopy":
+                other = copy.deepcopy(mesh)
+                _lib_call(other, op, True)
+            else:
+                other = _lib_call(mesh, op, False)
+            ctx.require(other is not mesh and other.region is not mesh.region, "C01.history", "a copy shares the mesh or its Region object")
+            st2 = _oracle_step(op, st)
+            _observe(other, st2, ctx, after + " (the copy)", sig + ":copy")
+            if via == "copy":        # the copy is an object of its own: moving it in place must not move the original
+                shift = ["translate", True, ((st2["max"] - st2["min"]) * 1.5).tolist()]
+                _lib_call(other, shift, True)
+                _observe(other, _oracle_step(shift, st2), ctx, after + " (the copy, moved in place)", sig + ":copy-moved")
+        else:
+            raise ValueError("unknown via %r" % (via,))
+        # the mesh under observation: everything it says must describe the one current lattice
+        if not _observe(mesh, st, ctx, after, sig):
+            return                  # reported; whatever follows would only repeat it under another step's name
+        held = _grab(mesh, OBSERVER_NAMES)
+    # points: the containment / floor machinery on the final lattice, and the centres of the very first lattice
+    check_probe(mesh, st["n"], pr["seed"], ctx, "stateful")
+    pmin, pmax, cell, scale = _frame(mesh, st["n"])
+    tol = np.min(pmax - pmin) * mesh.region.tolerance_factor + mesh.region.tolerance_factor * scale
+    margin = 10 * tol + 64 * np.spacing(scale)
+    ok_old, bad = True, None
+    for p in old_centres:
+        inside = bool(np.all(p >= pmin + margin) and np.all(p <= pmax - margin))
+        outside = bool(np.any(p < pmin - margin) or np.any(p > pmax + margin))
+        r, kk = raises(ValueError, mesh.point2index, p)
+        if outside and not r:
+            ok_old, bad = False, (p.tolist(), "accepted", list(kk))
+        elif inside:
+            q = (p - pmin) / cell
+            if r or not np.all((np.array(kk) >= 0) & (np.array(kk) < st["n"]) & (np.abs(q - np.array(kk) - 0.5) <= 0.5 + 1e-6)):
+                ok_old, bad = False, (p.tolist(), repr(kk) if r else list(kk))
+    ctx.require(ok_old, "C01.reobserve", "a centre of the lattice observed first is not located on the current lattice "
+                "(inside: the containing cell; outside: rejected)", sig="old-centres", detail=bad)
 
 
 def check_by_cell(pr, ctx):
